@@ -249,3 +249,28 @@ func HasRef(c *GCase) bool {
 	}
 	return false
 }
+
+// Validatable: the declaration can go through config.ValidateFix as it is --
+// every filter_ref names integration "ig_<table>" with its table and column,
+// block-data names and input names are unique.
+func Validatable(c *GCase) bool {
+	ok := func(f Flt) bool {
+		if f.RefIG == "" && f.RefTable == "" && f.RefCol == "" {
+			return true
+		}
+		return f.RefTable != "" && f.RefCol != "" && f.RefIG == "ig_"+f.RefTable
+	}
+	names := map[string]bool{}
+	for _, in := range c.Decl.Inputs {
+		if !ok(in.Flt) {
+			return false
+		}
+	}
+	for _, b := range c.Decl.Block {
+		if !ok(b.Flt) || names[b.Name] {
+			return false
+		}
+		names[b.Name] = true
+	}
+	return true
+}
